@@ -568,3 +568,39 @@ NOT_APPLICABLE = {
     "C56": "hash-table behaviour: pure function of the insertion sequence (single-threaded structure).",
     "C57": "prefix resolution: pure function of the ID set and prefix.",
 }
+
+# extensions added after the seeding waves (appended to the descriptions above)
+_EXTRA = {
+    "C02": "the real retry layer under the reader with downloads that break off or fail; misdirected ranges inside one pack (another blob of the same stored length); one damaged download followed by a backend that is down",
+    "C03": "a needed pack that vanishes after the n-th download of the running check",
+    "C06": "packs built by merging two packers whose data source may end early",
+    "C08": "index files with 20-300 entries; an index file superseded (new file stored, old removed) between listing and load",
+    "C09": "every Remove of one snapshot fails for good during forget --prune; histories with indexed duplicates (crashed backup, same data again, repair index) and a redundant pack that goes missing",
+    "C10": "a targeted history that puts a used blob into two partly used packs next to other used blobs",
+    "C12": "standby of a whole process (tickers, monotonic clock, goroutines) beyond the stale timeout with a contender removing the stale lock; processes of different users on one host (EPERM on the liveness probe); outages whose requests hang before they fail",
+    "C13": "standby of a whole process; no modification may reach the storage after the lock context was cancelled, nor after the holder's stale lock was removed by another process and the holder is awake",
+    "C14": "a reader that opens the repository like `restic mount` and walks the FUSE tree; a writer whose k-th index upload fails for good",
+    "C16": "5-14 distinct contents and 20-48 files when the index-full knob is on, so that the in-memory index becomes full while copies still arrive",
+    "C17": "reads that return the last bytes together with io.EOF; files that fail mid-read or at Close; two workers with all files submitted at once",
+    "C19": "a second hard link outside the target combined with shorter / longer / different content",
+    "C21": "all overwrite modes; damage that keeps the modification time; a file that is cut while it is being verified",
+    "C26": "an error sweep: the k-th Save/Remove attempt fails once with or without effect, every Save or every Remove of the k-th snapshot file fails",
+    "C29": "more than 20 keys with --key-hint; a key switch inside one process whose config load fails; two key holders removing each other's key concurrently",
+    "C31": "every subset of the four logical config operations failing for good, on backends with and without atomic replace",
+    "C32": "repair index on the destination and a second copy after a crashed copy; a source pack that cannot be downloaded at all",
+    "C33": "an index file that cannot be downloaded or cannot be removed at all",
+    "C34": "duplicates (crashed backup, same data again, repair index) with damage to both packs of a pair that shares a blob",
+    "C36": "a failed fsync drops the dirty data from write-back for good (Linux semantics)",
+    "C37": "caller contexts cancelled at scheduler-chosen points; two freezers whose freeze periods queue up",
+    "C38": "backend faults including downloads that end early and fail afterwards, with raw loads through the caching backend compared too; a failing Save (and Stat) through the cache; a tree pack removed through the cache with a plain handle",
+    "C41": "owner names chosen independently of the numeric IDs and compared after decoding",
+    "C42": "up to eleven roots in arbitrary order (roots that are subtrees of other roots); a caller context cancelled after k scheduling points",
+    "C43": "download errors that look like request timeouts; the call itself must never fail, what cannot be loaded is reported per blob",
+    "C45": "a context cancelled after k scheduling points while a multi-blob file is written",
+    "C46": "a stub loader that decodes into a supplied buffer like the real LoadBlob; an interrupted Open before the readers",
+    "C51": "answers that change on the second request for the same URL and a second valid archive (the attacker's)",
+    "C55": "directory listings that fail part-way; a file that becomes a symlink between lstat and open",
+}
+for _k, _v in _EXTRA.items():
+    if _k in PROPS:
+        PROPS[_k]["text"] = PROPS[_k]["text"].rstrip(". ") + ". Added after the seeding waves: " + _v + "."
